@@ -483,7 +483,13 @@ def iterate(eng, v, allow_symbolic=False):
     if isinstance(v, ZipVal):
         inners = [iterate(eng, x, allow_symbolic) for x in v.inners]
         if any(isinstance(x, SymbolicRange) for x in inners):
-            raise Unsupported("zip over symbolic sequences")
+            if not all(isinstance(x, SymbolicRange) for x in inners):
+                raise Unsupported("zip over mixed symbolic/concrete sequences")
+            cnt = inners[0].count
+            for x in inners[1:]:
+                if not dim_eq(x.count, cnt) and not eng.proves(T.compare("eq", x.count, cnt)):
+                    raise Unsupported("zip over symbolic sequences of different lengths")
+            return SymbolicRange(0, cnt, 1, wrap=lambda k, _i, inners=inners: tuple(x.element(k) for x in inners))
         if v.strict and len({len(x) for x in inners}) > 1:
             raise _I().PyRaise("ValueError", ("zip() arguments have different lengths",))
         return [tuple(t) for t in zip(*inners)]
